@@ -51,13 +51,14 @@ type vpWorldCfg struct {
 	noFanout bool
 	fixedThresholds *PeerScoreThresholds
 	symThresholds   bool // thresholds are solver variables accepted by the real validation
+	opts            []Option
 }
 
 func vpPeerName(i int) peer.ID { return peer.ID([]string{"p0", "p1", "p2", "p3", "p4", "p5", "p6"}[i]) }
 
 func vpNewWorld(c vpWorldCfg) *vpWorld {
 	w := &vpWorld{P: c.P, scoreOf: map[peer.ID]float64{}}
-	cfg := vpNodeCfg{router: "gossipsub", params: &c.params, tracer: c.tracer, doPX: c.doPX, flood: c.flood, queue: c.queue}
+	cfg := vpNodeCfg{router: "gossipsub", params: &c.params, tracer: c.tracer, doPX: c.doPX, flood: c.flood, queue: c.queue, opts: c.opts}
 	if c.scoring {
 		cfg.score = &PeerScoreParams{
 			AppSpecificScore:  func(p peer.ID) float64 { return w.scoreOf[p] },
